@@ -34,6 +34,10 @@ CHECKS = {
    text="TLC enumerates every axis permutation of ranks 2-4 (rank 5 in the thorough tier) on shapes with pairwise distinct extents, for permute<> and the legacy permutation<>, tensor and unevaluated-expression arguments, and transpose/trans/ctrans over a box of (M,N) plus the blocked-kernel edge sizes; checks the L1 permutation algebra (inverse composition) on every enumerated case; every recorded result (static extents, all elements on position-revealing data, and the round trip through the inverse permutation) is validated by TLC against Permute!Permuted under SSE2/AVX2/AVX-512 and C++14/17.",
    note="Exact data (flat indices). permutation<> is accepted by p or by p^-1 consistently; the library's mixed behaviour on non-involutive permutations is a listed known finding (D15), recognised by the trace spec as a named deviation so that any other wrong result is still a violation.",
    technique="TLA+ L1 spec + TLC-enumerated plan + TLC trace validation of recorded results"),
+ "C02": dict(level=MC, design="3/C02",
+   text="TLC enumerates expression trees up to depth 2 (tensor leaves, scalar on either side, unary minus, abs, sqrt, + - * /, min, max, six comparisons, && || !) x five assignment forms x ten tensor sizes covering every residue of the vector widths x four element types, checks on every enumerated tree that it lies in the exactness domain of the L1 evaluator, and validates every recorded destination position by position against Expr!Eval / Expr!Assign under SSE2/AVX2/AVX-512. A second family (table mode) runs single operations, including 20 math functions, on integer boundary values and IEEE specials and validates lane by lane against the same scalar C++ operation recorded by plain scalar code.",
+   note="Interpreted mode is exact (small-integer operands, checked per event by Expr!InDomain). Table mode trusts the scalar C++ operation as the oracle (the property's own oracle); NaN operands are excluded for min/max. round() half-to-even in the vector body is a listed known finding (D17). Complex element types are not in the plan (complex scalar*tensor evaluates to 0, see DESIGN findings).",
+   technique="TLA+ L1 expression evaluator + TLC-enumerated plan + TLC trace validation of recorded results"),
 }
 NA_REASON = "check not built yet (work in progress in this session; see DESIGN.md section 3 for the planned model)"
 
